@@ -355,6 +355,16 @@ def _choice(repo, rep):
                 "R07.3", site, "a dict entry excludes the names that follow "
                 "it (later sources win) -- names[i:]",
                 construct="dict-exclude", where=wh, detail=et[:120])
+            # ... spelled as the named entries are emitted: the generated
+            # test compares the dict's keys with these names as written
+            loops = [w for w in A.walk(ex) if isinstance(w, A.Loop)]
+            elems = [A.show(x, limit=6) for lp in loops
+                     for x in A.items_of(lp.body)] if loops else []
+            rep.check(elems == ["getitem(each(prepared), 0)"], "R07.3", site,
+                      "the excluded names are the entries' names as written "
+                      "(the same spelling the named Attribute nodes are "
+                      "emitted with)", construct="dict-exclude-spelling",
+                      where=wh, detail=str(elems))
             bn = inner.arg("bool_names", ("expression", "char_escape",
                                           "quote", "exclude", "bool_names"))
             rep.check("boolean_attributes" in A.show(bn), "R07.3", site,
